@@ -387,6 +387,7 @@ func (ex *Exec) concat(x, y Val, t types.Type) Val {
 			return
 		}
 		k := c.fresh("k")
+		c.bound[k] = true
 		c.hasQ = true
 		c.assume(fmt.Sprintf("(forall ((%s (_ BitVec 64))) (! %s :pattern ((select %s (bvadd %s %s)))))", k,
 			imp(and(app("bvsle", bvLit(64, 0), k), app("bvslt", k, part.Len)),
